@@ -31,7 +31,11 @@ Open Scope Z_scope.
    EVERY load returns a World instance not seen before and satisfies the whole
    specification again - new instances, ids from 1, callbacks and marks once per
    loaded world; "$res{..}" names the one resource its handle holds, "$handle{..}"
-   the same handle, in every load. *)
+   the same handle, in every load.  Between the loads the files may be rewritten: each
+   load is judged against its own description.  A load whose description makes user
+   code raise (a constructor that refuses), or names a ${..} / $res{..} that does not
+   exist, MUST raise; it leaves the handle uncached and the next load is judged on its
+   own. *)
 Theorem C15_load_is_spec :
   forall c : C15_case, wf_b c = true -> known_b c = false -> accepts c = true -> holds c.
 Proof. exact accepts_holds. Qed.
@@ -44,11 +48,12 @@ Theorem C15_pipeline_meets_spec :
 Proof. exact model_holds. Qed.
 Print Assumptions C15_pipeline_meets_spec.
 
-(* every load of the case: the n-th load returned the n-th new World instance
-   and satisfies the specification ([holds1]) on its own *)
+(* every load of the case: the n-th load returned a World instance no earlier load
+   returned (or raised and left the handle uncached) and satisfies the specification
+   ([holds1]) for the description that was in the files at ITS time *)
 Theorem C15_every_load :
-  forall c n i o, holds c -> nth_error (c_obs c) n = Some (i, o) ->
-    i = Z.of_nat n /\ holds1 (c_env c) (c_load c) o = true.
+  forall c n k i o, holds c -> nth_error (c_loads c) n = Some (k, (i, o)) ->
+    i = Z.of_nat n /\ holds1 (c_env c) k o = true.
 Proof. exact holds_every_load. Qed.
 Print Assumptions C15_every_load.
 
@@ -102,6 +107,26 @@ Theorem C15_callbacks :
       (forall cb0, In cb0 (o_cbs w) -> exists x, In x table /\ fst x = cb_inst cb0).
 Proof. exact holds_callbacks. Qed.
 Print Assumptions C15_callbacks.
+
+(* ---- error paths -------------------------------------------------------------------------- *)
+(* a world that was returned contains no instance whose constructor would have
+   raised, and none of its described arguments names something that does not exist *)
+Theorem C15_no_raising_constructor :
+  forall E k w, holds1 E k (OOk w) = true -> existsb raises_constr (o_constr w) = false.
+Proof. exact holds_no_raise. Qed.
+
+Theorem C15_dangling_reference_aborts :
+  forall E k w j h d i a,
+    holds1 E k (OOk w) = true -> nth_error (all_hdicts (steps_of k)) j = Some (h, d) ->
+    nth_error (optl (d_args d)) i = Some a -> expected E h a <> MustFail.
+Proof. exact holds_no_dangling. Qed.
+
+(* a load that raised has a cause in its description: an open-form argument, a
+   reference that names nothing, or a constructor that refuses its first argument *)
+Theorem C15_abort_has_cause :
+  forall E k, holds1 E k OErr = true -> has_open E (steps_of k) = true.
+Proof. exact abort_has_cause. Qed.
+Print Assumptions C15_dangling_reference_aborts.
 
 (* ---- the three ways of loading ------------------------------------------------------ *)
 (* JSON file through WorldFromFileHandle: the one-pass substitution, the default
@@ -184,27 +209,38 @@ Definition ex_ok : C15_case :=
   (Case (Env [([118; 110; 115], NS (JRef KNoCopy 0) CNone); ([118; 110; 115; 46; 67; 48], NS (JRef
     KObj 1) (CComp true true)); ([118; 110; 115; 46; 80; 48], NS (JRef KObj 2) CProc); ([118;
     110; 115; 46; 111; 48], NS (JRef KObj 3) CNone); ([118; 110; 115; 46; 80; 49], NS (JRef KObj
-    4) CProc)] [([114; 49], NHandle 0 100)] 2) (LFile (DS (Some [(DD [118; 110; 115; 46; 80; 48]
-    (Some [(JNum 1)]) None)]) (Some [(ED (Some (JStr [104; 101; 114; 111])) (Some [(DD [118;
+    4) CProc)] [([114; 49], NHandle 0 100)] 2) [((LFile (DS (Some [(DD [118; 110; 115; 46; 80;
+    48] (Some [(JNum 1)]) None)]) (Some [(ED (Some (JStr [104; 101; 114; 111])) (Some [(DD [118;
     110; 115; 46; 67; 48] (Some [(JStr [36; 123; 118; 110; 115; 46; 111; 48; 125]); (JStr [36;
     114; 101; 115; 123; 114; 49; 125]); (JStr [120; 36; 123; 118; 110; 115; 46; 111; 48; 125]);
     (JList [(JStr [36; 123; 118; 110; 115; 46; 111; 48; 125])])]) (Some [(4, (JStr [36; 104; 97;
     110; 100; 108; 101; 123; 114; 49; 125]))]))])); (ED None (Some [(DD [118; 110; 115; 46; 67;
-    48] None None)]))]))) [(0, (OOk (WO [(K 2 [(JNum 1)] []); (K 1 [(JRef KObj 3); (JRef KRes
+    48] None None)]))]))), (0, (OOk (WO [(K 2 [(JNum 1)] []); (K 1 [(JRef KObj 3); (JRef KRes
     100); (JStr [120; 36; 123; 118; 110; 115; 46; 111; 48; 125]); (JList [(JStr [36; 123; 118;
     110; 115; 46; 111; 48; 125])])] [(4, (JRef KHandle 0))]); (K 1 [] [])] [(-1); (-2); 0]
     [((JStr [104; 101; 114; 111]), [1]); ((JNum 1), [2])] false [(CB 1 0 (JStr [104; 101; 114;
-    111]) true); (CB 2 0 (JNum 1) true); (CB 1 1 JNull true); (CB 2 1 JNull true)] []))); (1,
-    (OOk (WO [(K 2 [(JNum 1)] []); (K 1 [(JRef KObj 3); (JRef KRes 100); (JStr [120; 36; 123;
-    118; 110; 115; 46; 111; 48; 125]); (JList [(JStr [36; 123; 118; 110; 115; 46; 111; 48;
-    125])])] [(4, (JRef KHandle 0))]); (K 1 [] [])] [(-1); (-2); 0] [((JStr [104; 101; 114;
-    111]), [1]); ((JNum 1), [2])] false [(CB 1 0 (JStr [104; 101; 114; 111]) true); (CB 2 0
-    (JNum 1) true); (CB 1 1 JNull true); (CB 2 1 JNull true)] []))); (2, (OOk (WO [(K 2 [(JNum
-    1)] []); (K 1 [(JRef KObj 3); (JRef KRes 100); (JStr [120; 36; 123; 118; 110; 115; 46; 111;
-    48; 125]); (JList [(JStr [36; 123; 118; 110; 115; 46; 111; 48; 125])])] [(4, (JRef KHandle
-    0))]); (K 1 [] [])] [(-1); (-2); 0] [((JStr [104; 101; 114; 111]), [1]); ((JNum 1), [2])]
-    false [(CB 1 0 (JStr [104; 101; 114; 111]) true); (CB 2 0 (JNum 1) true); (CB 1 1 JNull
-    true); (CB 2 1 JNull true)] [])))]).
+    111]) true); (CB 2 0 (JNum 1) true); (CB 1 1 JNull true); (CB 2 1 JNull true)] []))));
+    ((LFile (DS (Some [(DD [118; 110; 115; 46; 80; 48] (Some [(JNum 1)]) None)]) (Some [(ED
+    (Some (JStr [104; 101; 114; 111])) (Some [(DD [118; 110; 115; 46; 67; 48] (Some [(JStr [36;
+    123; 118; 110; 115; 46; 111; 48; 125]); (JStr [36; 114; 101; 115; 123; 114; 49; 125]); (JStr
+    [120; 36; 123; 118; 110; 115; 46; 111; 48; 125]); (JList [(JStr [36; 123; 118; 110; 115; 46;
+    111; 48; 125])])]) (Some [(4, (JStr [36; 104; 97; 110; 100; 108; 101; 123; 114; 49;
+    125]))]))])); (ED None (Some [(DD [118; 110; 115; 46; 67; 48] None None)]))]))), (1, (OOk
+    (WO [(K 2 [(JNum 1)] []); (K 1 [(JRef KObj 3); (JRef KRes 100); (JStr [120; 36; 123; 118;
+    110; 115; 46; 111; 48; 125]); (JList [(JStr [36; 123; 118; 110; 115; 46; 111; 48; 125])])]
+    [(4, (JRef KHandle 0))]); (K 1 [] [])] [(-1); (-2); 0] [((JStr [104; 101; 114; 111]), [1]);
+    ((JNum 1), [2])] false [(CB 1 0 (JStr [104; 101; 114; 111]) true); (CB 2 0 (JNum 1) true);
+    (CB 1 1 JNull true); (CB 2 1 JNull true)] [])))); ((LFile (DS (Some [(DD [118; 110; 115; 46;
+    80; 48] (Some [(JNum 1)]) None)]) (Some [(ED (Some (JStr [104; 101; 114; 111])) (Some [(DD
+    [118; 110; 115; 46; 67; 48] (Some [(JStr [36; 123; 118; 110; 115; 46; 111; 48; 125]); (JStr
+    [36; 114; 101; 115; 123; 114; 49; 125]); (JStr [120; 36; 123; 118; 110; 115; 46; 111; 48;
+    125]); (JList [(JStr [36; 123; 118; 110; 115; 46; 111; 48; 125])])]) (Some [(4, (JStr [36;
+    104; 97; 110; 100; 108; 101; 123; 114; 49; 125]))]))])); (ED None (Some [(DD [118; 110; 115;
+    46; 67; 48] None None)]))]))), (2, (OOk (WO [(K 2 [(JNum 1)] []); (K 1 [(JRef KObj 3); (JRef
+    KRes 100); (JStr [120; 36; 123; 118; 110; 115; 46; 111; 48; 125]); (JList [(JStr [36; 123;
+    118; 110; 115; 46; 111; 48; 125])])] [(4, (JRef KHandle 0))]); (K 1 [] [])] [(-1); (-2); 0]
+    [((JStr [104; 101; 114; 111]), [1]); ((JNum 1), [2])] false [(CB 1 0 (JStr [104; 101; 114;
+    111]) true); (CB 2 0 (JNum 1) true); (CB 1 1 JNull true); (CB 2 1 JNull true)] []))))]).
 Example C15_nonvacuous : wf_b ex_ok = true /\ known_b ex_ok = false /\ accepts ex_ok = true.
 Proof. vm_compute. auto. Qed.
 
@@ -216,21 +252,27 @@ Definition ex_handle : C15_case :=
   (Case (Env [([118; 110; 115], NS (JRef KNoCopy 0) CNone); ([118; 110; 115; 46; 67; 48], NS (JRef
     KObj 1) (CComp true true)); ([118; 110; 115; 46; 80; 48], NS (JRef KObj 2) CProc); ([118;
     110; 115; 46; 111; 48], NS (JRef KObj 3) CNone); ([118; 110; 115; 46; 80; 49], NS (JRef KObj
-    4) CProc)] [([114; 49], NHandle 0 100)] 1) (LHandle [(SMark 0); (SDict (DS (Some [(DD [118;
-    110; 115; 46; 80; 49] None None)]) (Some [(ED (Some (JNum 7)) (Some [(DD [118; 110; 115; 46;
-    67; 48] (Some [(JStr [36; 123; 118; 110; 115; 46; 111; 48; 125]); (JRef KObj 3)])
+    4) CProc)] [([114; 49], NHandle 0 100)] 1) [((LHandle [(SMark 0); (SDict (DS (Some [(DD
+    [118; 110; 115; 46; 80; 49] None None)]) (Some [(ED (Some (JNum 7)) (Some [(DD [118; 110;
+    115; 46; 67; 48] (Some [(JStr [36; 123; 118; 110; 115; 46; 111; 48; 125]); (JRef KObj 3)])
     None)]))]))); SDefault; (SFile [PRes; PType] (DS (Some [(DD [118; 110; 115; 46; 80; 48] None
     None)]) (Some [(ED None (Some [(DD [118; 110; 115; 46; 67; 48] (Some [(JStr [36; 123; 118;
     110; 115; 46; 111; 48; 125]); (JStr [36; 114; 101; 115; 123; 114; 49; 125])]) None)]))])));
-    (SMark 1)]) [(0, (OOk (WO [(K 4 [] []); (K 1 [(JStr [36; 123; 118; 110; 115; 46; 111; 48;
+    (SMark 1)]), (0, (OOk (WO [(K 4 [] []); (K 1 [(JStr [36; 123; 118; 110; 115; 46; 111; 48;
     125]); (JRef KObj 3)] []); (K 2 [] []); (K 1 [(JStr [36; 123; 118; 110; 115; 46; 111; 48;
     125]); (JRef KRes 100)] [])] [0; (-1); (-2); 2] [((JNum 7), [1]); ((JNum 1), [3])] false
     [(CB 1 0 (JNum 7) true); (CB 3 0 (JNum 1) true); (CB 1 1 JNull true); (CB 3 1 JNull true)]
-    [(0, true); (1, true)]))); (1, (OOk (WO [(K 4 [] []); (K 1 [(JStr [36; 123; 118; 110; 115;
-    46; 111; 48; 125]); (JRef KObj 3)] []); (K 2 [] []); (K 1 [(JStr [36; 123; 118; 110; 115;
-    46; 111; 48; 125]); (JRef KRes 100)] [])] [0; (-1); (-2); 2] [((JNum 7), [1]); ((JNum 1),
-    [3])] false [(CB 1 0 (JNum 7) true); (CB 3 0 (JNum 1) true); (CB 1 1 JNull true); (CB 3 1
-    JNull true)] [(0, true); (1, true)])))]).
+    [(0, true); (1, true)])))); ((LHandle [(SMark 0); (SDict (DS (Some [(DD [118; 110; 115; 46;
+    80; 49] None None)]) (Some [(ED (Some (JNum 7)) (Some [(DD [118; 110; 115; 46; 67; 48] (Some
+    [(JStr [36; 123; 118; 110; 115; 46; 111; 48; 125]); (JRef KObj 3)]) None)]))]))); SDefault;
+    (SFile [PRes; PType] (DS (Some [(DD [118; 110; 115; 46; 80; 48] None None)]) (Some [(ED None
+    (Some [(DD [118; 110; 115; 46; 67; 48] (Some [(JStr [36; 123; 118; 110; 115; 46; 111; 48;
+    125]); (JStr [36; 114; 101; 115; 123; 114; 49; 125])]) None)]))]))); (SMark 1)]), (1, (OOk
+    (WO [(K 4 [] []); (K 1 [(JStr [36; 123; 118; 110; 115; 46; 111; 48; 125]); (JRef KObj 3)]
+    []); (K 2 [] []); (K 1 [(JStr [36; 123; 118; 110; 115; 46; 111; 48; 125]); (JRef KRes 100)]
+    [])] [0; (-1); (-2); 2] [((JNum 7), [1]); ((JNum 1), [3])] false [(CB 1 0 (JNum 7) true);
+    (CB 3 0 (JNum 1) true); (CB 1 1 JNull true); (CB 3 1 JNull true)] [(0, true); (1,
+    true)]))))]).
 Example C15_nonvacuous_handle :
   wf_b ex_handle = true /\ known_b ex_handle = false /\ accepts ex_handle = true.
 Proof. vm_compute. auto. Qed.
@@ -240,14 +282,14 @@ Definition ex_direct : C15_case :=
   (Case (Env [([118; 110; 115], NS (JRef KNoCopy 0) CNone); ([118; 110; 115; 46; 67; 48], NS (JRef
     KObj 1) (CComp true true)); ([118; 110; 115; 46; 80; 48], NS (JRef KObj 2) CProc); ([118;
     110; 115; 46; 111; 48], NS (JRef KObj 3) CNone); ([118; 110; 115; 46; 80; 49], NS (JRef KObj
-    4) CProc)] [([114; 49], NHandle 0 100)] 1) (LDirect true [(SDict (DS None (Some [(ED (Some
+    4) CProc)] [([114; 49], NHandle 0 100)] 1) [((LDirect true [(SDict (DS None (Some [(ED (Some
     (JStr [97])) (Some [(DD [118; 110; 115; 46; 67; 48] (Some [(JStr [36; 114; 101; 115; 123;
     114; 49; 125])]) None)]))]))); (SDict (DS (Some [(DD [118; 110; 115; 46; 80; 48] None (Some
     [(4, (JStr [36; 123; 118; 110; 115; 46; 111; 48; 125]))]))]) (Some [(ED None (Some [(DD
-    [118; 110; 115; 46; 67; 48] (Some [(JRef KObj 3)]) None)]))])))]) [(0, (OOk (WO [(K 1 [(JStr
+    [118; 110; 115; 46; 67; 48] (Some [(JRef KObj 3)]) None)]))])))]), (0, (OOk (WO [(K 1 [(JStr
     [36; 114; 101; 115; 123; 114; 49; 125])] []); (K 2 [] [(4, (JStr [36; 123; 118; 110; 115;
     46; 111; 48; 125]))]); (K 1 [(JRef KObj 3)] [])] [1] [((JStr [97]), [0]); ((JNum 1), [2])]
-    true [(CB 0 0 (JStr [97]) true); (CB 2 0 (JNum 1) true)] [])))]).
+    true [(CB 0 0 (JStr [97]) true); (CB 2 0 (JNum 1) true)] []))))]).
 Example C15_nonvacuous_direct :
   wf_b ex_direct = true /\ known_b ex_direct = false /\ accepts ex_direct = true.
 Proof. vm_compute. auto. Qed.
@@ -258,17 +300,17 @@ Definition ex_search : C15_case :=
   (Case (Env [([118; 110; 115], NS (JRef KNoCopy 0) CNone); ([118; 110; 115; 46; 67; 48], NS (JRef
     KObj 1) (CComp true true)); ([118; 110; 115; 46; 80; 48], NS (JRef KObj 2) CProc); ([118;
     110; 115; 46; 111; 48], NS (JRef KObj 3) CNone); ([118; 110; 115; 46; 80; 49], NS (JRef KObj
-    4) CProc)] [([114; 49], NHandle 0 100)] 2) (LFile (DS (Some [(DD [118; 110; 115; 46; 80; 48]
-    (Some [(JNum 1)]) None)]) (Some [(ED (Some (JStr [104; 101; 114; 111])) (Some [(DD [118;
+    4) CProc)] [([114; 49], NHandle 0 100)] 2) [((LFile (DS (Some [(DD [118; 110; 115; 46; 80;
+    48] (Some [(JNum 1)]) None)]) (Some [(ED (Some (JStr [104; 101; 114; 111])) (Some [(DD [118;
     110; 115; 46; 67; 48] (Some [(JStr [36; 123; 118; 110; 115; 46; 111; 48; 125]); (JStr [36;
     114; 101; 115; 123; 114; 49; 125]); (JStr [120; 36; 123; 118; 110; 115; 46; 111; 48; 125]);
     (JList [(JStr [36; 123; 118; 110; 115; 46; 111; 48; 125])])]) (Some [(4, (JStr [36; 104; 97;
     110; 100; 108; 101; 123; 114; 49; 125]))]))])); (ED None (Some [(DD [118; 110; 115; 46; 67;
-    48] None None)]))]))) [(0, (OOk (WO [(K 2 [(JNum 1)] []); (K 1 [(JRef KObj 3); (JRef KRes
+    48] None None)]))]))), (0, (OOk (WO [(K 2 [(JNum 1)] []); (K 1 [(JRef KObj 3); (JRef KRes
     100); (JRef KObj 3); (JList [(JStr [36; 123; 118; 110; 115; 46; 111; 48; 125])])] [(4, (JRef
     KHandle 0))]); (K 1 [] [])] [(-1); (-2); 0] [((JStr [104; 101; 114; 111]), [1]); ((JNum 1),
     [2])] false [(CB 1 0 (JStr [104; 101; 114; 111]) true); (CB 2 0 (JNum 1) true); (CB 1 1
-    JNull true); (CB 2 1 JNull true)] [])))]).
+    JNull true); (CB 2 1 JNull true)] []))))]).
 Example C15_search_rejected :
   wf_b ex_search = true /\ known_b ex_search = false /\ holds_b ex_search = false /\ accepts ex_search = false.
 Proof. vm_compute. auto. Qed.
@@ -279,21 +321,83 @@ Definition ex_second_load : C15_case :=
   (Case (Env [([118; 110; 115], NS (JRef KNoCopy 0) CNone); ([118; 110; 115; 46; 67; 48], NS (JRef
     KObj 1) (CComp true true)); ([118; 110; 115; 46; 80; 48], NS (JRef KObj 2) CProc); ([118;
     110; 115; 46; 111; 48], NS (JRef KObj 3) CNone); ([118; 110; 115; 46; 80; 49], NS (JRef KObj
-    4) CProc)] [([114; 49], NHandle 0 100)] 2) (LFile (DS (Some [(DD [118; 110; 115; 46; 80; 48]
-    (Some [(JNum 1)]) None)]) (Some [(ED (Some (JStr [104; 101; 114; 111])) (Some [(DD [118;
+    4) CProc)] [([114; 49], NHandle 0 100)] 2) [((LFile (DS (Some [(DD [118; 110; 115; 46; 80;
+    48] (Some [(JNum 1)]) None)]) (Some [(ED (Some (JStr [104; 101; 114; 111])) (Some [(DD [118;
     110; 115; 46; 67; 48] (Some [(JStr [36; 123; 118; 110; 115; 46; 111; 48; 125]); (JStr [36;
     114; 101; 115; 123; 114; 49; 125]); (JStr [120; 36; 123; 118; 110; 115; 46; 111; 48; 125]);
     (JList [(JStr [36; 123; 118; 110; 115; 46; 111; 48; 125])])]) (Some [(4, (JStr [36; 104; 97;
     110; 100; 108; 101; 123; 114; 49; 125]))]))])); (ED None (Some [(DD [118; 110; 115; 46; 67;
-    48] None None)]))]))) [(0, (OOk (WO [(K 2 [(JNum 1)] []); (K 1 [(JRef KObj 3); (JRef KRes
+    48] None None)]))]))), (0, (OOk (WO [(K 2 [(JNum 1)] []); (K 1 [(JRef KObj 3); (JRef KRes
     100); (JStr [120; 36; 123; 118; 110; 115; 46; 111; 48; 125]); (JList [(JStr [36; 123; 118;
     110; 115; 46; 111; 48; 125])])] [(4, (JRef KHandle 0))]); (K 1 [] [])] [(-1); (-2); 0]
     [((JStr [104; 101; 114; 111]), [1]); ((JNum 1), [2])] false [(CB 1 0 (JStr [104; 101; 114;
-    111]) true); (CB 2 0 (JNum 1) true); (CB 1 1 JNull true); (CB 2 1 JNull true)] []))); (1,
-    (OOk (WO [] [] [] false [] [])))]).
+    111]) true); (CB 2 0 (JNum 1) true); (CB 1 1 JNull true); (CB 2 1 JNull true)] []))));
+    ((LFile (DS (Some [(DD [118; 110; 115; 46; 80; 48] (Some [(JNum 1)]) None)]) (Some [(ED
+    (Some (JStr [104; 101; 114; 111])) (Some [(DD [118; 110; 115; 46; 67; 48] (Some [(JStr [36;
+    123; 118; 110; 115; 46; 111; 48; 125]); (JStr [36; 114; 101; 115; 123; 114; 49; 125]); (JStr
+    [120; 36; 123; 118; 110; 115; 46; 111; 48; 125]); (JList [(JStr [36; 123; 118; 110; 115; 46;
+    111; 48; 125])])]) (Some [(4, (JStr [36; 104; 97; 110; 100; 108; 101; 123; 114; 49;
+    125]))]))])); (ED None (Some [(DD [118; 110; 115; 46; 67; 48] None None)]))]))), (1, (OOk
+    (WO [] [] [] false [] []))))]).
 Example C15_empty_second_load_rejected :
   wf_b ex_second_load = true /\ known_b ex_second_load = false /\
   holds_b ex_second_load = false /\ accepts ex_second_load = false.
+Proof. vm_compute. auto. Qed.
+
+(* four real loads of one file handle of /repo, the file rewritten in between: a
+   constructor that refuses ("!raise"), a name that does not exist, the corrected
+   file, the original file.  The first two raise and leave the handle uncached *)
+Definition ex_rewritten : C15_case :=
+  (Case (Env [([118; 110; 115], NS (JRef KNoCopy 0) CNone); ([118; 110; 115; 46; 67; 48], NS (JRef
+    KObj 1) (CComp true true)); ([118; 110; 115; 46; 80; 48], NS (JRef KObj 2) CProc); ([118;
+    110; 115; 46; 111; 48], NS (JRef KObj 3) CNone); ([118; 110; 115; 46; 80; 49], NS (JRef KObj
+    4) CProc)] [([114; 49], NHandle 0 100)] 1) [((LFile (DS None (Some [(ED None (Some [(DD
+    [118; 110; 115; 46; 67; 48] (Some [(JStr [33; 114; 97; 105; 115; 101]); (JNum 1)])
+    None)]))]))), (0, OErr)); ((LFile (DS (Some [(DD [118; 110; 115; 46; 80; 49] None (Some [(4,
+    (JStr [36; 123; 118; 110; 115; 46; 110; 111; 112; 101; 125]))]))]) None)), (1, OErr));
+    ((LFile (DS (Some [(DD [118; 110; 115; 46; 80; 49] None (Some [(4, (JStr [36; 123; 118; 110;
+    115; 46; 111; 48; 125]))]))]) (Some [(ED (Some (JNum 3)) (Some [(DD [118; 110; 115; 46; 67;
+    48] (Some [(JStr [114; 97; 105; 115; 101]); (JStr [36; 114; 101; 115; 123; 114; 49; 125])])
+    None)]))]))), (2, (OOk (WO [(K 4 [] [(4, (JRef KObj 3))]); (K 1 [(JStr [114; 97; 105; 115;
+    101]); (JRef KRes 100)] [])] [(-1); (-2); 0] [((JNum 3), [1])] false [(CB 1 0 (JNum 3)
+    true); (CB 1 1 JNull true)] [])))); ((LFile (DS (Some [(DD [118; 110; 115; 46; 80; 48] (Some
+    [(JNum 1)]) None)]) (Some [(ED (Some (JStr [104; 101; 114; 111])) (Some [(DD [118; 110; 115;
+    46; 67; 48] (Some [(JStr [36; 123; 118; 110; 115; 46; 111; 48; 125]); (JStr [36; 114; 101;
+    115; 123; 114; 49; 125]); (JStr [120; 36; 123; 118; 110; 115; 46; 111; 48; 125]); (JList
+    [(JStr [36; 123; 118; 110; 115; 46; 111; 48; 125])])]) (Some [(4, (JStr [36; 104; 97; 110;
+    100; 108; 101; 123; 114; 49; 125]))]))])); (ED None (Some [(DD [118; 110; 115; 46; 67; 48]
+    None None)]))]))), (3, (OOk (WO [(K 2 [(JNum 1)] []); (K 1 [(JRef KObj 3); (JRef KRes 100);
+    (JStr [120; 36; 123; 118; 110; 115; 46; 111; 48; 125]); (JList [(JStr [36; 123; 118; 110;
+    115; 46; 111; 48; 125])])] [(4, (JRef KHandle 0))]); (K 1 [] [])] [(-1); (-2); 0] [((JStr
+    [104; 101; 114; 111]), [1]); ((JNum 1), [2])] false [(CB 1 0 (JStr [104; 101; 114; 111])
+    true); (CB 2 0 (JNum 1) true); (CB 1 1 JNull true); (CB 2 1 JNull true)] []))))]).
+Example C15_nonvacuous_rewritten :
+  wf_b ex_rewritten = true /\ known_b ex_rewritten = false /\ accepts ex_rewritten = true.
+Proof. vm_compute. auto. Qed.
+
+(* the same four loads by a copy of desper whose WorldFromFileTransformer keeps the
+   text of the file it read first *)
+Definition ex_stale_file : C15_case :=
+  (Case (Env [([118; 110; 115], NS (JRef KNoCopy 0) CNone); ([118; 110; 115; 46; 67; 48], NS (JRef
+    KObj 1) (CComp true true)); ([118; 110; 115; 46; 80; 48], NS (JRef KObj 2) CProc); ([118;
+    110; 115; 46; 111; 48], NS (JRef KObj 3) CNone); ([118; 110; 115; 46; 80; 49], NS (JRef KObj
+    4) CProc)] [([114; 49], NHandle 0 100)] 1) [((LFile (DS None (Some [(ED None (Some [(DD
+    [118; 110; 115; 46; 67; 48] (Some [(JStr [33; 114; 97; 105; 115; 101]); (JNum 1)])
+    None)]))]))), (0, OErr)); ((LFile (DS (Some [(DD [118; 110; 115; 46; 80; 49] None (Some [(4,
+    (JStr [36; 123; 118; 110; 115; 46; 110; 111; 112; 101; 125]))]))]) None)), (1, OErr));
+    ((LFile (DS (Some [(DD [118; 110; 115; 46; 80; 49] None (Some [(4, (JStr [36; 123; 118; 110;
+    115; 46; 111; 48; 125]))]))]) (Some [(ED (Some (JNum 3)) (Some [(DD [118; 110; 115; 46; 67;
+    48] (Some [(JStr [114; 97; 105; 115; 101]); (JStr [36; 114; 101; 115; 123; 114; 49; 125])])
+    None)]))]))), (2, OErr)); ((LFile (DS (Some [(DD [118; 110; 115; 46; 80; 48] (Some [(JNum
+    1)]) None)]) (Some [(ED (Some (JStr [104; 101; 114; 111])) (Some [(DD [118; 110; 115; 46;
+    67; 48] (Some [(JStr [36; 123; 118; 110; 115; 46; 111; 48; 125]); (JStr [36; 114; 101; 115;
+    123; 114; 49; 125]); (JStr [120; 36; 123; 118; 110; 115; 46; 111; 48; 125]); (JList [(JStr
+    [36; 123; 118; 110; 115; 46; 111; 48; 125])])]) (Some [(4, (JStr [36; 104; 97; 110; 100;
+    108; 101; 123; 114; 49; 125]))]))])); (ED None (Some [(DD [118; 110; 115; 46; 67; 48] None
+    None)]))]))), (3, OErr))]).
+Example C15_stale_file_rejected :
+  wf_b ex_stale_file = true /\ known_b ex_stale_file = false /\
+  holds_b ex_stale_file = false /\ accepts ex_stale_file = false.
 Proof. vm_compute. auto. Qed.
 
 (* K6: "${vns}" names a module; copy.deepcopy at the start of the next
@@ -303,9 +407,9 @@ Definition ex_k6 : C15_case :=
   (Case (Env [([118; 110; 115], NS (JRef KNoCopy 0) CNone); ([118; 110; 115; 46; 67; 48], NS (JRef
     KObj 1) (CComp true true)); ([118; 110; 115; 46; 80; 48], NS (JRef KObj 2) CProc); ([118;
     110; 115; 46; 111; 48], NS (JRef KObj 3) CNone); ([118; 110; 115; 46; 80; 49], NS (JRef KObj
-    4) CProc)] [([114; 49], NHandle 0 100)] 1) (LFile (DS None (Some [(ED None (Some [(DD [118;
-    110; 115; 46; 67; 48] (Some [(JStr [36; 123; 118; 110; 115; 125])]) None)]))]))) [(0,
-    OErr)]).
+    4) CProc)] [([114; 49], NHandle 0 100)] 1) [((LFile (DS None (Some [(ED None (Some [(DD
+    [118; 110; 115; 46; 67; 48] (Some [(JStr [36; 123; 118; 110; 115; 125])]) None)]))]))), (0,
+    OErr))]).
 Theorem C15_K6_deepcopy_refuted :
   exists c, wf_b c = true /\ known_b c = true /\ accepts c = true /\ holds_b c = false.
 Proof. exists ex_k6. vm_compute. auto. Qed.
